@@ -307,3 +307,18 @@ def twist_exp_theta_forms_and_units(env, cfg, ck):
                     ck.eq('%s:deg=rad:%d' % (form, i), r.data[i], ref.data[i], tol=1e-12, scale=sc)
         ck.raises(lambda: S.exp(vec_form(env, t, form), 'grad'))
     ck.raises(lambda: S.exp(t[0], 'grad'))
+
+
+@contract('C15', targets=['spatialmath.base.argcheck.getunit'], configs=product(form=['scalar', 'list', 'tuple', 'array']), domain=False)
+def getunit_is_the_linear_degree_conversion(env, cfg, ck):
+    """getunit(v, 'deg') = v * pi / 180 for every real v - in particular beyond a full turn, where consumers that are
+    not periodic in the angle (twist vectors, screw translations, unit-quaternion sign) see the difference - in every
+    container form; 'rad' returns the value; an unknown unit is rejected"""
+    b, np = env.base, env.np
+    v = [env.real('v0', -1e4, 1e4), env.real('v1', -1e4, 1e4)]
+    arg = v[0] if cfg['form'] == 'scalar' else vec_form(env, v, cfg['form'])
+    want = v[0] * env.pi / 180 if cfg['form'] == 'scalar' else np.array([x * env.pi / 180 for x in v])
+    ck.eq('deg', np.array(ck.call(b.getunit, arg, 'deg')), np.array(want), tol=1e-12, scale=1e4)
+    ck.eq('rad', np.array(ck.call(b.getunit, arg, 'rad')), np.array(arg), tol=0)
+    ck.raises(lambda: b.getunit(arg, 'grad'))
+    ck.raises(lambda: b.getunit(arg, 'degrees'))
